@@ -12,7 +12,7 @@ use cgt_core::calculator::calculate;
 use cgt_core::{Currency, CurrencyAmount, MatchRule, Operation, TaxReport, Transaction};
 use cgtv::ledger::{full_config, to_dsl};
 use cgtv::{Counters, Finding, guarded};
-use chrono::{Duration, NaiveDate};
+use chrono::{Datelike, Duration, NaiveDate};
 use rand::rngs::StdRng;
 use rand::{Rng, SeedableRng};
 use rust_decimal::Decimal;
@@ -171,6 +171,33 @@ fn main() {
 /// The specification's laws on the implementation's own figures (accepted ledger).
 fn check_laws(txs: &[Transaction], report: &TaxReport, cnt: &mut Counters, push: &mut dyn FnMut(&str, &str, String)) {
     let tol = Decimal::new(1, 9);
+    // ---- Report.tla on years with dozens of disposals: a disposal's proceeds from the day's SELL lines, its result from its
+    // legs; TotalGain / TotalLoss / NetGain of the year from its disposals; every disposal in the year TaxYearOf puts it in,
+    // and in one year only (C04, C07)
+    {
+        let tolp = Decimal::new(1, 8);
+        let mut listed: std::collections::BTreeSet<(String, NaiveDate)> = std::collections::BTreeSet::new();
+        for y in &report.tax_years {
+            let (mut g, mut l) = (Decimal::ZERO, Decimal::ZERO);
+            if y.disposals.len() >= 12 { cnt.inc("years_with_12_or_more_disposals"); }
+            for d in &y.disposals {
+                let sells: Vec<&Transaction> = txs.iter().filter(|t| t.ticker == d.ticker && t.date == d.date && matches!(t.operation, Operation::Sell { .. })).collect();
+                let (mut gross, mut fees) = (Decimal::ZERO, Decimal::ZERO);
+                for t in &sells { if let Operation::Sell { amount, price, fees: f } = &t.operation { gross += *amount * price.amount; fees += f.amount; } }
+                if (d.gross_proceeds - gross).abs() > tolp { push("C04", "disposal_totals", format!("{} {}: gross proceeds {} where the day's sales are worth {gross}", d.ticker, d.date, d.gross_proceeds)); }
+                if (d.proceeds - (gross - fees)).abs() > tolp { push("C04", "disposal_totals", format!("{} {}: net proceeds {} where gross - fees = {}", d.ticker, d.date, d.proceeds, gross - fees)); }
+                let (lg, lc): (Decimal, Decimal) = d.matches.iter().fold((Decimal::ZERO, Decimal::ZERO), |a, m| (a.0 + m.gain_or_loss, a.1 + m.allowable_cost));
+                if (lg - (d.proceeds - lc)).abs() > tolp { push("C04", "gain_identity", format!("{} {}: legs' gains {lg} != net proceeds {} - cost {lc}", d.ticker, d.date, d.proceeds)); }
+                if lg >= Decimal::ZERO { g += lg } else { l -= lg }
+                if !listed.insert((d.ticker.clone(), d.date)) { push("C04", "duplicate_disposal", format!("{} {} is listed twice", d.ticker, d.date)); }
+                let uk = if (d.date.month(), d.date.day()) >= (4, 6) { d.date.year() } else { d.date.year() - 1 };
+                if i32::from(y.period.start_year()) != uk { push("C07", "wrong_year", format!("{} {} is listed under the tax year starting {}", d.ticker, d.date, y.period.start_year())); }
+            }
+            if (y.total_gain - g).abs() > tolp || (y.total_loss - l).abs() > tolp || (y.net_gain - (g - l)).abs() > tolp {
+                push("C04", "year_totals", format!("tax year {}: total gain {} / loss {} / net {} where its {} disposals give {g} / {l} / {}", y.period.start_year(), y.total_gain, y.total_loss, y.net_gain, y.disposals.len(), g - l));
+            }
+        }
+    }
     let tickers: std::collections::BTreeSet<&str> = txs.iter().map(|t| t.ticker.as_str()).collect();
     for tk in tickers {
         let mut mine: Vec<&Transaction> = txs.iter().filter(|t| t.ticker == tk).collect();
